@@ -116,6 +116,16 @@ def run(pid, path):
                     _print("REPLAY: budget %d exceeded: total %s grants %s" % (its, d["total"], d.get("grants")))
         _print("REPLAY: recorded failure was: %s" % rp.get("what"))
         return 1 if still else 0
+    if kind == "fullmoves":
+        import fullmoves as FM
+        import gen_full as GF
+        rc, g, err = FM.run_blocks([("r", GF.case_lines(rp["input"], rp["options"], {"iterations": 1})[:2] + [rp["moves"]])], "replay")
+        cnt, bad = FM.judge(g.get("r", []))
+        for what, line in bad:
+            _print("REPLAY: %s: %s" % (what, line))
+        _print("REPLAY: %d lines, counts %s" % (len(g.get("r", [])), cnt))
+        _print("REPLAY: recorded failure was: %s" % rp.get("what"))
+        return 1 if bad else 0
     if "input" in rp and "options" in rp:
         import crash_runs as CR
         import gen_full as GF
